@@ -387,6 +387,9 @@ def validate_traces(ctx, module, traces, constants=None, name=None, spec='TraceS
             raise MachineryError('trace validation %s failed to run: rc=%s\n%s' % (module, res['rc'], tail))
         if len(_RE_FAIL.findall(res['out'])) != res['out'].count('"FAILCLAUSE"') or len(_RE_REJ.findall(res['out'])) != res['out'].count('"REJECTED"'):
             raise MachineryError('trace validation %s: could not parse every FAILCLAUSE / REJECTED line' % module)
+        for m in re.finditer(r'<<\s*"TRACESUMMARY",\s*(\d+),\s*(\d+)(?:,\s*(\d+))?', res['out']):
+            ctx.cov.setdefault('trace_summaries', []).append({'module': module, 'traces': int(m.group(1)), 'rejected': int(m.group(2)),
+                                                              'excluded_by_guard_band': int(m.group(3)) if m.group(3) else 0})
         fails = {}
         for m in _RE_FAIL.finditer(res['out']):
             fails.setdefault(int(m.group(1)), []).append((int(m.group(2)), m.group(3)))
